@@ -151,6 +151,7 @@ class Net:
         self.loop, self.env, self.peer = loop, env, peer
         self.connect_mode = connect
         self.chunk = chunk
+        self.bad_cert = set()       # host names whose TLS handshake fails verification
         self.conns = []
         self.refuse = set()         # (host, port) that refuse connections
         self.refuse_idx = set()
@@ -175,6 +176,12 @@ class Net:
                 any(int(x) > 255 for x in host.split('.') if x):
             import socket
             raise socket.gaierror(-2, 'Name or service not known')
+        if kw.get('ssl') and (host in self.bad_cert or
+                              getattr(self, 'ip_to_name', {}).get(host) in self.bad_cert):
+            import ssl
+            raise ssl.SSLCertVerificationError(
+                1, '[SSL: CERTIFICATE_VERIFY_FAILED] certificate verify failed: self signed '
+                   'certificate')
         idx = len(self.conns)
         conn = FakeConn(self, idx, host, port)
         self.conns.append(conn)
